@@ -20,7 +20,9 @@ type bytesCase struct {
 	Unit string `json:"unit,omitempty"`
 }
 
-func mkBytesCase(b []byte, unit string) bytesCase { return bytesCase{Hex: hex.EncodeToString(b), Unit: unit} }
+func mkBytesCase(b []byte, unit string) bytesCase {
+	return bytesCase{Hex: hex.EncodeToString(b), Unit: unit}
+}
 
 func (c bytesCase) bytes() []byte { b, _ := hex.DecodeString(c.Hex); return b }
 
